@@ -66,7 +66,8 @@ func (d *Document) PrintDescription(description Description, indent []byte, dept
 		}
 
 		switch content[i] {
-		case runes.LINETERMINATOR:
+		case runes.LINETERMINATOR, runes.CARRIAGERETURN:
+			// LF, CR and CR LF all terminate a line of a block string
 			skipWhitespace = true
 			skippedBytes = 0
 		default:
